@@ -1,17 +1,31 @@
 /-
   C12 — Servers isolate concurrent clients and always shut down cleanly.
 
-  Model: JRV.Model.ServerLife.  Theorems over every reachable state of the life-cycle LTS: any number of
-  connections, any interleaving of the serving thread, the closing thread, an external shutdown() caller and
-  the handler tasks; `f` (the sequential dispatcher) is arbitrary.  The socket layer and BaseServer are an
-  environment model (see the model file): labelled partial for that reason.
+  Model: JRV.Model.ServerLife.  Theorems over every reachable state of the life-cycle LTS: plain or pooled server,
+  any number of connections, any mix of requests (calls, notifications, failing methods, malformed bodies), any
+  interleaving of the serving thread, the closing thread, an external shutdown() caller, the handlers and the
+  clients; `f` (the sequential dispatcher: shared dispatcher state, body ↦ value) is arbitrary.  The socket layer
+  and BaseServer are an environment model (see the model file).
+
+  Two facts about the source are hypotheses of the theorems that need them and are discharged from the extracted
+  facts in JRV/Properties/C12Gen.lean: `cfg.sharedWrites = false` (write footprint of the serve path, shared with
+  C13) and `cfg.catchAll = true` (the two `except:` clauses of the serve path are bare).
+
+  READING of "in-flight request" (adopted; stated in ctx.assumptions of harness/props/c12.py too): an accepted
+  connection whose handler has begun counts as in flight until its request has been answered or the client has
+  disconnected; stop operations wait for it (stdlib socketserver semantics: the handler holds its pool worker — plain
+  server: the serving thread — until the exchange is over).  So a client that connects and stays silent, or keeps a
+  persistent connection open after its reply, holds `server_close()` (pooled) / `shutdown()` (plain) until it sends or
+  disconnects: `C12_idle_connection_holds_stop`, `C12_idle_released_by_client`, `C12_idle_persist`.  With that reading the
+  stop clause of the property is the theorem `C12_full_statement`: stop operations are held back by in-flight
+  connections only, and every in-flight connection can complete by a step of its client or of the server.
 -/
 import JRV.Model.ServerLife
 import JRV.Lemmas.PoolCompose
 import JRV.Properties.C09
-import JRV.Generated
 
 set_option linter.unusedSimpArgs false
+set_option linter.unusedVariables false
 
 namespace JRV.Props
 open JRV.SL
@@ -25,9 +39,23 @@ def serveRemaining (s : State) : Nat :=
   | .exitSetEvent => 1
   | _ => 0
 
+/-- Per-connection part of the invariant. -/
+structure ConnOk (cfg : Cfg) (f : Nat → Nat → Nat) (c : Conn) : Prop where
+  reply : cfg.sharedWrites = false → (c.reply = none ∨ c.reply = some (replyOf f 0 c.kind c.body))
+  execsReply : c.reply.isSome = true → c.execs = execOf c.kind
+  execsLe : c.execs ≤ 1
+  fresh : (c.phase = .queued ∨ c.phase = .running) → c.reply = none ∧ c.execs = 0
+  waiting : c.phase = .awaiting → c.reply = none → c.execs = 0
+  noQueue : cfg.plain = true → c.phase ≠ .queued
+
 /-- The inductive invariant. -/
-structure Good (f : Nat → Nat) (s : State) : Prop where
-  replies : ∀ c ∈ s.conns, (c.reply = none ∨ c.reply = some (f c.body)) ∧ (c.reply.isSome = true → c.started = true)
+structure Good (cfg : Cfg) (f : Nat → Nat → Nat) (s : State) : Prop where
+  conns : ∀ c ∈ s.conns, ConnOk cfg f c
+  dispConst : cfg.sharedWrites = false → s.disp = 0
+  handlingPlain : cfg.plain = false → s.handling = none
+  handlingOk : ∀ i, s.handling = some i → ∃ c, s.conns[i]? = some c ∧ (c.phase = .awaiting ∨ c.phase = .running)
+  activeHandled : cfg.plain = true → ∀ i c, s.conns[i]? = some c → (c.phase = .awaiting ∨ c.phase = .running) →
+    s.handling = some i
   servingPc : s.serving = true → s.spc ≠ .notStarted ∧ s.spc ≠ .setServing ∧ s.spc ≠ .finished
   closerAfterServe : (s.cpc = .setReq ∨ s.cpc = .waitEvent) → s.spc ≠ .notStarted ∧ s.spc ≠ .setServing
   reqKept : s.cpc = .waitEvent → (s.spc = .clearEvent ∨ s.spc = .loop) → s.shutdownReq = true
@@ -35,100 +63,384 @@ structure Good (f : Nat → Nat) (s : State) : Prop where
   dAfterServe : (s.dpc = .setReq ∨ s.dpc = .waitEvent) → s.spc ≠ .notStarted ∧ s.spc ≠ .setServing ∧ s.spc ≠ .clearEvent
   eventSet : (s.spc = .clearServing ∨ s.spc = .finished) → s.isShutDown = true
   socketClosed : (s.cpc = .stopPool ∨ s.cpc = .returned) → s.socketOpen = false
-  poolIff : s.poolStopped = true ↔ s.cpc = .returned
-  drained : s.poolStopped = true → ∀ c ∈ s.conns, c.started = true → c.reply.isSome = true
+  poolIff : s.poolStopped = true ↔ (s.cpc = .returned ∧ cfg.plain = false)
+  plainCloser : cfg.plain = true → (s.cpc = .idle ∨ s.cpc = .closeSocket ∨ s.cpc = .returned)
+  drained : s.poolStopped = true → ∀ c ∈ s.conns, c.phase = .queued ∨ c.phase = .closed
 
 private theorem mem_set {cs : List Conn} {i : Nat} {c x : Conn} (h : x ∈ cs.set i c) : x = c ∨ x ∈ cs := by
   rcases List.mem_or_eq_of_mem_set h with h | h
   · exact Or.inr h
   · exact Or.inl h
 
-theorem good_init (f : Nat → Nat) : Good f init := by
+theorem good_init (cfg : Cfg) (f : Nat → Nat → Nat) : Good cfg f init := by
   constructor <;> simp [init]
 
-theorem good_step (f : Nat → Nat) (s s' : State) (a : Action) (hg : Good f s) (hs : step? f s a = some s') :
-    Good f s' := by
-  obtain ⟨h1, h2, h3, h4, h4d, h5, h6, h7, h8, h9⟩ := hg
+/-- Frame: a step that leaves the connection table and the plain server's `handling` alone. -/
+private theorem good_frame (cfg : Cfg) (f : Nat → Nat → Nat) (s s' : State) (hg : Good cfg f s)
+    (hc : s'.conns = s.conns) (hh : s'.handling = s.handling) (hd : s'.disp = s.disp)
+    (h1 : s'.serving = true → s'.spc ≠ .notStarted ∧ s'.spc ≠ .setServing ∧ s'.spc ≠ .finished)
+    (h2 : (s'.cpc = .setReq ∨ s'.cpc = .waitEvent) → s'.spc ≠ .notStarted ∧ s'.spc ≠ .setServing)
+    (h3 : s'.cpc = .waitEvent → (s'.spc = .clearEvent ∨ s'.spc = .loop) → s'.shutdownReq = true)
+    (h4 : s'.dpc = .waitEvent → (s'.spc = .clearEvent ∨ s'.spc = .loop) → s'.shutdownReq = true)
+    (h5 : (s'.dpc = .setReq ∨ s'.dpc = .waitEvent) → s'.spc ≠ .notStarted ∧ s'.spc ≠ .setServing ∧ s'.spc ≠ .clearEvent)
+    (h6 : (s'.spc = .clearServing ∨ s'.spc = .finished) → s'.isShutDown = true)
+    (h7 : (s'.cpc = .stopPool ∨ s'.cpc = .returned) → s'.socketOpen = false)
+    (h8 : s'.poolStopped = true ↔ (s'.cpc = .returned ∧ cfg.plain = false))
+    (h9 : cfg.plain = true → (s'.cpc = .idle ∨ s'.cpc = .closeSocket ∨ s'.cpc = .returned))
+    (h10 : s'.poolStopped = true → ∀ c ∈ s.conns, c.phase = .queued ∨ c.phase = .closed) : Good cfg f s' where
+  conns := by rw [hc]; exact hg.conns
+  dispConst := by rw [hd]; exact hg.dispConst
+  handlingPlain := by rw [hh]; exact hg.handlingPlain
+  handlingOk := by rw [hh, hc]; exact hg.handlingOk
+  activeHandled := by rw [hh, hc]; exact hg.activeHandled
+  servingPc := h1
+  closerAfterServe := h2
+  reqKept := h3
+  reqKeptD := h4
+  dAfterServe := h5
+  eventSet := h6
+  socketClosed := h7
+  poolIff := h8
+  plainCloser := h9
+  drained := by rw [hc]; exact h10
+
+/-- Frame: a step of a handler or client that only touches the connection table, `handling` and `disp`. -/
+private theorem good_conn_frame (cfg : Cfg) (f : Nat → Nat → Nat) (s s' : State) (hg : Good cfg f s)
+    (e1 : s'.serving = s.serving) (e2 : s'.shutdownReq = s.shutdownReq) (e3 : s'.isShutDown = s.isShutDown)
+    (e4 : s'.socketOpen = s.socketOpen) (e5 : s'.poolStopped = s.poolStopped) (e6 : s'.spc = s.spc)
+    (e7 : s'.cpc = s.cpc) (e8 : s'.dpc = s.dpc)
+    (hconns : ∀ c ∈ s'.conns, ConnOk cfg f c)
+    (hdisp : cfg.sharedWrites = false → s'.disp = 0)
+    (hhp : cfg.plain = false → s'.handling = none)
+    (hho : ∀ i, s'.handling = some i → ∃ c, s'.conns[i]? = some c ∧ (c.phase = .awaiting ∨ c.phase = .running))
+    (hah : cfg.plain = true → ∀ i c, s'.conns[i]? = some c → (c.phase = .awaiting ∨ c.phase = .running) →
+      s'.handling = some i)
+    (hdr : s'.poolStopped = true → ∀ c ∈ s'.conns, c.phase = .queued ∨ c.phase = .closed) : Good cfg f s' where
+  conns := hconns
+  dispConst := hdisp
+  handlingPlain := hhp
+  handlingOk := hho
+  activeHandled := hah
+  servingPc := by rw [e1, e6]; exact hg.servingPc
+  closerAfterServe := by rw [e7, e6]; exact hg.closerAfterServe
+  reqKept := by rw [e7, e6, e2]; exact hg.reqKept
+  reqKeptD := by rw [e8, e6, e2]; exact hg.reqKeptD
+  dAfterServe := by rw [e8, e6]; exact hg.dAfterServe
+  eventSet := by rw [e6, e3]; exact hg.eventSet
+  socketClosed := by rw [e7, e4]; exact hg.socketClosed
+  poolIff := by rw [e5, e7]; exact hg.poolIff
+  plainCloser := by rw [e7]; exact hg.plainCloser
+  drained := hdr
+
+private theorem all_drained {cs : List Conn} (h : cs.all (fun c => !c.started || c.done) = true) :
+    ∀ c ∈ cs, c.phase = .queued ∨ c.phase = .closed := by
+  intro c hc
+  have := List.all_eq_true.mp h c hc
+  cases hp : c.phase <;> simp_all [Conn.started, Conn.done]
+
+private theorem drained_all {cs : List Conn} (h : ∀ c ∈ cs, c.phase ≠ .awaiting ∧ c.phase ≠ .running) :
+    cs.all (fun c => !c.started || c.done) = true := by
+  rw [List.all_eq_true]
+  intro c hc
+  have := h c hc
+  cases hp : c.phase <;> simp_all [Conn.started, Conn.done]
+
+private theorem all_drained' {cs : List Conn} (h : ∀ x ∈ cs, x.started = false ∨ x.done = true) :
+    ∀ c ∈ cs, c.phase = .queued ∨ c.phase = .closed := by
+  intro c hc
+  have := h c hc
+  cases hp : c.phase <;> simp_all [Conn.started, Conn.done]
+
+private theorem good_closeStep (cfg : Cfg) (f : Nat → Nat → Nat) (s s' : State) (hg : Good cfg f s)
+    (hs : step? cfg f s .closeStep = some s') : Good cfg f s' := by
+  have ⟨_, _, _, _, _, h2, h3, h4, h4d, h5, h6, h7, h8, h9, h10⟩ := hg
+  simp only [step?] at hs
+  cases hp : s.cpc <;> simp only [hp] at hs
+  · simp at hs
+  · -- readServing
+    simp at hs; subst hs
+    cases hsv : s.serving
+    · apply good_frame cfg f s _ hg <;> simp_all
+    · apply good_frame cfg f s _ hg <;> simp_all
+  · simp at hs; subst hs
+    apply good_frame cfg f s _ hg <;> simp_all
+  · split at hs <;> simp at hs
+    subst hs
+    apply good_frame cfg f s _ hg <;> simp_all
+  · -- closeSocket
+    simp at hs; subst hs
+    cases hpl : cfg.plain
+    · apply good_frame cfg f s _ hg <;> simp_all
+    · apply good_frame cfg f s _ hg <;> simp_all
+  · -- stopPool
+    split at hs <;> simp at hs
+    subst hs
+    rename_i hcnd
+    have hd := all_drained hcnd
+    cases hpl : cfg.plain
+    · apply good_frame cfg f s _ hg <;> simp_all
+    · have := h9 hpl; simp_all
+  · simp at hs
+
+private theorem good_accept (cfg : Cfg) (f : Nat → Nat → Nat) (s s' : State) (b : Nat) (k : Kind) (ka : Bool)
+    (hg : Good cfg f s) (hs : step? cfg f s (.accept b k ka) = some s') : Good cfg f s' := by
+  simp only [step?] at hs
+  split at hs <;> simp at hs
+  subst hs
+  rename_i hc
+  obtain ⟨hloop, hopen, hpool, hbusy⟩ := hc
+  apply good_conn_frame cfg f s _ hg <;> try rfl
+  · intro c hc'
+    simp only [List.mem_append, List.mem_singleton] at hc'
+    rcases hc' with hc' | rfl
+    · exact hg.conns c hc'
+    · constructor <;> simp
+  · exact hg.dispConst
+  · intro hpl; simp [hpl]; exact hg.handlingPlain hpl
+  · intro i hi
+    cases hpl : cfg.plain
+    · simp [hpl] at hi
+      have := hg.handlingPlain hpl
+      simp_all
+    · simp [hpl] at hi
+      subst hi
+      simp
+  · intro hpl i c hc' hact
+    simp only [hpl, if_true]
+    have hnone : s.handling = none := by simpa [busy, hpl] using hbusy
+    rw [List.getElem?_append] at hc'
+    split at hc'
+    · have := hg.activeHandled hpl i c hc' hact
+      simp_all
+    · rename_i hlt
+      cases hi : i - s.conns.length with
+      | zero => congr; omega
+      | succ n => simp [hi] at hc'
+  · intro hp; simp [hpool] at hp
+
+private theorem get_set {cs : List Conn} {i j : Nat} {c c' x : Conn} (hc : cs[i]? = some c)
+    (h : (cs.set i c')[j]? = some x) : (j = i ∧ x = c') ∨ (j ≠ i ∧ cs[j]? = some x) := by
+  have hlt : i < cs.length := (List.getElem?_eq_some_iff.mp hc).1
+  rw [List.getElem?_set] at h
+  split at h
+  · rename_i hij
+    simp [hlt] at h
+    exact Or.inl ⟨hij.symm, h.symm⟩
+  · rename_i hij
+    exact Or.inr ⟨fun e => hij e.symm, h⟩
+
+private theorem set_get_self {cs : List Conn} {i : Nat} {c c' : Conn} (hc : cs[i]? = some c) :
+    (cs.set i c')[i]? = some c' := by
+  have hlt : i < cs.length := (List.getElem?_eq_some_iff.mp hc).1
+  simp [hlt]
+
+private theorem set_get_ne {cs : List Conn} {i j : Nat} {c' : Conn} (hij : j ≠ i) :
+    (cs.set i c')[j]? = cs[j]? := by
+  rw [List.getElem?_set]; simp [Ne.symm hij]
+
+private theorem good_handlerStart (cfg : Cfg) (f : Nat → Nat → Nat) (s s' : State) (i : Nat)
+    (hg : Good cfg f s) (hs : step? cfg f s (.handlerStart i) = some s') : Good cfg f s' := by
+  simp only [step?] at hs
+  cases hc : s.conns[i]? with
+  | none => simp [hc] at hs
+  | some c =>
+    simp only [hc] at hs
+    split at hs <;> simp at hs
+    subst hs
+    rename_i hcond
+    obtain ⟨hpl, hq, hpool⟩ := hcond
+    have hmem : c ∈ s.conns := List.mem_of_getElem? hc
+    have hok := hg.conns c hmem
+    apply good_conn_frame cfg f s _ hg <;> try rfl
+    · intro x hx
+      rcases mem_set hx with rfl | hx
+      · have := hok.fresh (Or.inl hq)
+        constructor <;> simp_all
+      · exact hg.conns x hx
+    · exact hg.dispConst
+    · exact hg.handlingPlain
+    · intro j hj
+      have := hg.handlingPlain hpl
+      simp_all
+    · intro hp; simp [hpl] at hp
+    · intro hp; simp [hpool] at hp
+
+private theorem good_request (cfg : Cfg) (f : Nat → Nat → Nat) (s s' : State) (i : Nat)
+    (hg : Good cfg f s) (hs : step? cfg f s (.request i) = some s') : Good cfg f s' := by
+  simp only [step?] at hs
+  cases hc : s.conns[i]? with
+  | none => simp [hc] at hs
+  | some c =>
+    simp only [hc] at hs
+    split at hs <;> simp at hs
+    subst hs
+    rename_i hcond
+    obtain ⟨hmay, haw, hrep⟩ := hcond
+    have hmem : c ∈ s.conns := List.mem_of_getElem? hc
+    have hok := hg.conns c hmem
+    apply good_conn_frame cfg f s _ hg <;> try rfl
+    · intro x hx
+      rcases mem_set hx with rfl | hx
+      · have := hok.waiting haw hrep
+        constructor <;> simp_all
+      · exact hg.conns x hx
+    · intro hw; simp [hw]; exact hg.dispConst hw
+    · exact hg.handlingPlain
+    · intro j hj
+      obtain ⟨x, hx, hact⟩ := hg.handlingOk j hj
+      by_cases hji : j = i
+      · subst hji; exact ⟨_, set_get_self hc, Or.inr rfl⟩
+      · exact ⟨x, by simpa [set_get_ne hji] using hx, hact⟩
+    · intro hpl j x hx hact
+      rcases get_set hc hx with ⟨rfl, rfl⟩ | ⟨hji, hx⟩
+      · simpa [mayRun, hpl] using hmay
+      · exact hg.activeHandled hpl j x hx hact
+    · intro hp x hx
+      have := hg.drained hp c hmem
+      simp_all
+
+private theorem execOf_le (k : Kind) : execOf k ≤ 1 := by cases k <;> simp [execOf]
+
+private theorem good_clientClose (cfg : Cfg) (f : Nat → Nat → Nat) (s s' : State) (i : Nat)
+    (hg : Good cfg f s) (hs : step? cfg f s (.clientClose i) = some s') : Good cfg f s' := by
+  simp only [step?] at hs
+  cases hc : s.conns[i]? with
+  | none => simp [hc] at hs
+  | some c =>
+    simp only [hc] at hs
+    split at hs <;> simp at hs
+    subst hs
+    rename_i hcond
+    obtain ⟨hmay, haw⟩ := hcond
+    have hmem : c ∈ s.conns := List.mem_of_getElem? hc
+    have hok := hg.conns c hmem
+    apply good_conn_frame cfg f s _ hg <;> try rfl
+    · intro x hx
+      rcases mem_set hx with rfl | hx
+      · obtain ⟨a1, a2, a3, a4, a5, a6⟩ := hok
+        constructor <;> simp_all
+      · exact hg.conns x hx
+    · exact hg.dispConst
+    · intro _; rfl
+    · intro j hj; simp at hj
+    · intro hpl j x hx hact
+      rcases get_set hc hx with ⟨rfl, rfl⟩ | ⟨hji, hx⟩
+      · simp at hact
+      · have h1 := hg.activeHandled hpl j x hx hact
+        have h2 : s.handling = some i := by simpa [mayRun, hpl] using hmay
+        rw [h1] at h2; exact absurd (Option.some.inj h2) hji
+    · intro hp x hx
+      have := hg.drained hp c hmem
+      simp_all
+
+private theorem good_handlerFinish (cfg : Cfg) (f : Nat → Nat → Nat) (s s' : State) (i : Nat)
+    (hg : Good cfg f s) (hs : step? cfg f s (.handlerFinish i) = some s') : Good cfg f s' := by
+  simp only [step?] at hs
+  cases hc : s.conns[i]? with
+  | none => simp [hc] at hs
+  | some c =>
+    simp only [hc] at hs
+    split at hs
+    · rename_i hcond
+      obtain ⟨hmay, hrun⟩ := hcond
+      have hmem : c ∈ s.conns := List.mem_of_getElem? hc
+      have hok := hg.conns c hmem
+      have hfresh := hok.fresh (Or.inr hrun)
+      have hdr : s.poolStopped = true → False := by
+        intro hp
+        have := hg.drained hp c hmem
+        simp_all
+      split at hs
+      · -- the reply (result or error) is written
+        simp at hs; subst hs
+        apply good_conn_frame cfg f s _ hg <;> try rfl
+        · intro x hx
+          rcases mem_set hx with rfl | hx
+          · have hle := execOf_le c.kind
+            have hd := hg.dispConst
+            obtain ⟨a1, a2, a3, a4, a5, a6⟩ := hok
+            constructor <;> simp_all
+            all_goals (cases hka : c.keepAlive <;> simp_all)
+          · exact hg.conns x hx
+        · exact hg.dispConst
+        · intro hpl; simp only []; have := hg.handlingPlain hpl; split <;> simp_all
+        · intro j hj
+          cases hka : c.keepAlive
+          · simp [hka] at hj
+          · simp [hka] at hj
+            obtain ⟨x, hx, hact⟩ := hg.handlingOk j hj
+            by_cases hji : j = i
+            · subst hji; exact ⟨_, set_get_self hc, by simp [hka]⟩
+            · exact ⟨x, by simpa [set_get_ne hji] using hx, hact⟩
+        · intro hpl j x hx hact
+          have h2 : s.handling = some i := by simpa [mayRun, hpl] using hmay
+          rcases get_set hc hx with ⟨rfl, rfl⟩ | ⟨hji, hx⟩
+          · cases hka : c.keepAlive
+            · simp [hka] at hact
+            · simpa [hka] using h2
+          · have h1 := hg.activeHandled hpl j x hx hact
+            rw [h1] at h2; exact absurd (Option.some.inj h2) hji
+        · intro hp; exact absurd (hdr hp) id
+      · -- (hypothetical code) the exception escapes
+        simp at hs
+        -- first the connection table, then the serving thread's pc
+        have hmid : Good cfg f { s with conns := s.conns.set i { c with execs := c.execs + 1, phase := .closed },
+                                        handling := none } := by
+          apply good_conn_frame cfg f s _ hg <;> try rfl
+          · intro x hx
+            rcases mem_set hx with rfl | hx
+            · obtain ⟨a1, a2, a3, a4, a5, a6⟩ := hok
+              constructor <;> simp_all
+            · exact hg.conns x hx
+          · exact hg.dispConst
+          · intro _; rfl
+          · intro j hj; simp at hj
+          · intro hpl j x hx hact
+            have h2 : s.handling = some i := by simpa [mayRun, hpl] using hmay
+            rcases get_set hc hx with ⟨rfl, rfl⟩ | ⟨hji, hx⟩
+            · simp at hact
+            · have h1 := hg.activeHandled hpl j x hx hact
+              rw [h1] at h2; exact absurd (Option.some.inj h2) hji
+          · intro hp; exact absurd (hdr hp) id
+        subst hs
+        cases hpl : cfg.plain
+        · simpa [hpl] using hmid
+        · have ⟨_, _, _, _, _, h2, h3, h4, h4d, h5, h6, h7, h8, h9, h10⟩ := hmid
+          apply good_frame cfg f _ _ hmid <;> simp_all
+    · simp at hs
+
+theorem good_step (cfg : Cfg) (f : Nat → Nat → Nat) (s s' : State) (a : Action) (hg : Good cfg f s)
+    (hs : step? cfg f s a = some s') : Good cfg f s' := by
+  have ⟨_, _, _, _, _, h2, h3, h4, h4d, h5, h6, h7, h8, h9, h10⟩ := hg
   cases a with
   | startServe =>
     simp only [step?] at hs
     split at hs <;> simp at hs
     subst hs
-    rename_i hn
-    constructor <;> simp_all
+    apply good_frame cfg f s _ hg <;> simp_all
   | serveStep =>
     simp only [step?] at hs
     cases hp : s.spc <;> simp only [hp] at hs
     all_goals (try (simp at hs))
     all_goals (try (split at hs))
     all_goals (try (simp at hs))
-    all_goals (try (obtain ⟨hcnd, hs⟩ := hs))
-    all_goals (try (subst hs))
-    all_goals (constructor <;> simp_all)
-  | accept body =>
-    simp only [step?] at hs
-    split at hs <;> simp at hs
-    subst hs
-    rename_i hc
-    constructor <;> simp_all
-    · intro c hc'
-      rcases hc' with hc' | rfl
-      · exact h1 c hc'
-      · simp
-  | handlerStart i =>
-    simp only [step?] at hs
-    cases hc : s.conns[i]? with
-    | none => simp [hc] at hs
-    | some c =>
-      simp only [hc] at hs
-      split at hs <;> simp at hs
-      subst hs
-      rename_i hcond
-      have hmem : c ∈ s.conns := List.mem_of_getElem? hc
-      constructor <;> simp_all [setConn]
-      · intro x hx
-        rcases mem_set hx with rfl | hx
-        · have := h1 c hmem; simp_all
-        · exact h1 x hx
-  | handlerFinish i =>
-    simp only [step?] at hs
-    cases hc : s.conns[i]? with
-    | none => simp [hc] at hs
-    | some c =>
-      simp only [hc] at hs
-      split at hs <;> simp at hs
-      subst hs
-      rename_i hcond
-      have hmem : c ∈ s.conns := List.mem_of_getElem? hc
-      constructor <;> simp_all [setConn]
-      · intro x hx
-        rcases mem_set hx with rfl | hx
-        · simp_all
-        · exact h1 x hx
-      · intro hp x hx hst
-        rcases mem_set hx with rfl | hx
-        · simp
-        · exact h9 hp x hx hst
-  | beginClose =>
-    simp only [step?] at hs
-    split at hs <;> simp at hs
-    subst hs
-    constructor <;> simp_all
-  | closeStep =>
-    simp only [step?] at hs
-    cases hp : s.cpc <;> simp only [hp] at hs
-    all_goals (try (simp at hs))
     all_goals (try (split at hs))
     all_goals (try (simp at hs))
     all_goals (try (obtain ⟨hcnd, hs⟩ := hs))
     all_goals (try (subst hs))
-    all_goals (constructor <;> simp_all)
-    all_goals (try (intro c hc hst; rcases hcnd c hc with h | h <;> simp_all))
+    all_goals (apply good_frame cfg f s _ hg <;> simp_all)
+  | beginClose =>
+    simp only [step?] at hs
+    split at hs <;> simp at hs
+    subst hs
+    apply good_frame cfg f s _ hg <;> simp_all
+    all_goals (cases hpl : cfg.plain <;> simp_all)
+  | closeStep => exact good_closeStep cfg f s s' hg hs
   | beginShutdown =>
     simp only [step?] at hs
     split at hs <;> simp at hs
     subst hs
-    constructor <;> simp_all
+    apply good_frame cfg f s _ hg <;> simp_all
   | shutdownStep =>
     simp only [step?] at hs
     cases hp : s.dpc <;> simp only [hp] at hs
@@ -137,73 +449,295 @@ theorem good_step (f : Nat → Nat) (s s' : State) (a : Action) (hg : Good f s) 
     all_goals (try (simp at hs))
     all_goals (try (obtain ⟨hcnd, hs⟩ := hs))
     all_goals (try (subst hs))
-    all_goals (constructor <;> simp_all)
+    all_goals (apply good_frame cfg f s _ hg <;> simp_all)
+  | accept b k ka => exact good_accept cfg f s s' b k ka hg hs
+  | handlerStart i => exact good_handlerStart cfg f s s' i hg hs
+  | request i => exact good_request cfg f s s' i hg hs
+  | handlerFinish i => exact good_handlerFinish cfg f s s' i hg hs
+  | clientClose i => exact good_clientClose cfg f s s' i hg hs
 
-theorem good_of_reach (f : Nat → Nat) (s : State) (h : Reach f s) : Good f s := by
+theorem good_of_reach (cfg : Cfg) (f : Nat → Nat → Nat) (s : State) (h : Reach cfg f s) : Good cfg f s := by
   induction h with
-  | init => exact good_init f
-  | step a _ hs ih => exact good_step f _ _ a ih hs
+  | init => exact good_init cfg f
+  | step a _ hs ih => exact good_step cfg f _ _ a ih hs
 
-private theorem serve_clearEvent (f : Nat → Nat) (s : State) (hp : s.spc = .clearEvent) :
-    step? f s .serveStep = some (if s.socketOpen then { s with isShutDown := false, spc := .loop }
-                                 else { s with isShutDown := false, spc := .exitResetReq }) := by
+private theorem serve_clearEvent (cfg : Cfg) (f : Nat → Nat → Nat) (s : State) (hp : s.spc = .clearEvent) :
+    step? cfg f s .serveStep = some (if s.socketOpen then { s with isShutDown := false, spc := .loop }
+                                     else { s with isShutDown := false, spc := .exitResetReq }) := by
   simp only [step?, hp]; split <;> rfl
 
-private theorem serve_loop_req (f : Nat → Nat) (s : State) (hp : s.spc = .loop) (hr : s.shutdownReq = true) :
-    step? f s .serveStep = some { s with spc := .exitResetReq } := by
-  simp [step?, hp, hr]
+private theorem serve_loop_req (cfg : Cfg) (f : Nat → Nat → Nat) (s : State) (hp : s.spc = .loop)
+    (hb : busy cfg s = false) (hr : s.shutdownReq = true) :
+    step? cfg f s .serveStep = some { s with spc := .exitResetReq } := by
+  simp [step?, hp, hr, hb]
 
-private theorem serve_exitResetReq (f : Nat → Nat) (s : State) (hp : s.spc = .exitResetReq) :
-    step? f s .serveStep = some { s with shutdownReq := false, spc := .exitSetEvent } := by
+private theorem serve_exitResetReq (cfg : Cfg) (f : Nat → Nat → Nat) (s : State) (hp : s.spc = .exitResetReq) :
+    step? cfg f s .serveStep = some { s with shutdownReq := false, spc := .exitSetEvent } := by
   simp [step?, hp]
 
-private theorem serve_exitSetEvent (f : Nat → Nat) (s : State) (hp : s.spc = .exitSetEvent) :
-    step? f s .serveStep = some { s with isShutDown := true, spc := .clearServing } := by
+private theorem serve_exitSetEvent (cfg : Cfg) (f : Nat → Nat → Nat) (s : State) (hp : s.spc = .exitSetEvent) :
+    step? cfg f s .serveStep = some { s with isShutDown := true, spc := .clearServing } := by
   simp [step?, hp]
 
-/-- Isolation: whatever the number of connections and the interleaving, the reply written on a connection
-    is the sequential dispatcher's reply to *that connection's* body — no cross-talk. -/
-theorem C12_isolation (f : Nat → Nat) (s : State) (h : Reach f s) (i : Nat) (c : Conn)
-    (hc : s.conns[i]? = some c) : c.reply = none ∨ c.reply = some (f c.body) :=
-  ((good_of_reach f s h).replies c (List.mem_of_getElem? hc)).1
+/- ---------- isolation, executions ---------- -/
 
-/-- No lost or duplicated executions: a handler task starts at most once (a started task cannot start
-    again) and writes its reply at most once. -/
-theorem C12_once (f : Nat → Nat) (s : State) (i : Nat) (c : Conn) (hc : s.conns[i]? = some c) :
-    (c.started = true → step? f s (.handlerStart i) = none) ∧
-    (c.reply.isSome = true → step? f s (.handlerFinish i) = none) := by
-  constructor <;> intro h <;> simp [step?, hc, h]
-  cases hr : c.reply <;> simp_all
+/-- Isolation: whatever the number of connections, the mix of requests and the interleaving, the reply written on
+    a connection is the sequential dispatcher's reply to *that connection's* request, computed from the initial
+    (never written) shared dispatcher state — provided the serve path does not store into shared state
+    (`cfg.sharedWrites = false`: the extracted write footprint, `C12_gen_sharedWrites`).  The handler does read the
+    shared cell (`handlerFinish` computes `replyOf f s.disp …`): without the hypothesis the statement is false, see
+    the example below. -/
+theorem C12_isolation (cfg : Cfg) (f : Nat → Nat → Nat) (hw : cfg.sharedWrites = false) (s : State)
+    (h : Reach cfg f s) (i : Nat) (c : Conn) (hc : s.conns[i]? = some c) :
+    s.disp = 0 ∧ (c.reply = none ∨ c.reply = some (replyOf f 0 c.kind c.body)) :=
+  ⟨(good_of_reach cfg f s h).dispConst hw, ((good_of_reach cfg f s h).conns c (List.mem_of_getElem? hc)).reply hw⟩
 
-/-- `server_close()` never gets stuck waiting for the serving loop: whenever the closing thread waits for
-    `is_shut_down`, either the event is already set or the serving thread has an enabled step that strictly
-    decreases the number of steps left before it sets the event (so under fair scheduling the wait ends).
-    In particular the closing thread never waits when the server never served. -/
-theorem C12_close_no_stuck (f : Nat → Nat) (s : State) (h : Reach f s) (hw : s.cpc = .waitEvent) :
+/- The hypothesis is needed: with a store to shared dispatcher state on the serve path (the model's rendering of
+   `self.current_id = request["id"]`), two overlapping requests cross: connection 0 is answered from the cell that
+   connection 1 wrote.  (f d b = 100·d + b) -/
+example : ((run { sharedWrites := true } (fun d b => 100 * d + b) init
+    [.startServe, .serveStep, .serveStep, .accept 1 .good false, .accept 2 .good false, .handlerStart 0, .handlerStart 1,
+     .request 0, .request 1, .handlerFinish 0]).map (fun s => s.conns.map (·.reply)))
+      = some [some (.result 201), none] := by decide
+
+/-- No lost or duplicated executions: in every reachable state the callable of a request has run at most once; once
+    the connection is answered it has run exactly once (never for a malformed body; notifications included); a
+    handler task that has begun cannot begin again, and an answered request is neither read nor finished again. -/
+theorem C12_once (cfg : Cfg) (f : Nat → Nat → Nat) (s : State) (h : Reach cfg f s) (i : Nat) (c : Conn)
+    (hc : s.conns[i]? = some c) :
+    c.execs ≤ 1 ∧ (c.reply.isSome = true → c.execs = execOf c.kind) ∧
+    (c.started = true → step? cfg f s (.handlerStart i) = none) ∧
+    (c.reply.isSome = true → step? cfg f s (.request i) = none ∧ step? cfg f s (.handlerFinish i) = none) := by
+  have hok := (good_of_reach cfg f s h).conns c (List.mem_of_getElem? hc)
+  refine ⟨hok.execsLe, hok.execsReply, ?_, ?_⟩
+  · intro hst
+    simp only [step?, hc]
+    cases hp : c.phase <;> simp_all [Conn.started]
+  · intro hr
+    have hfr := hok.fresh
+    constructor
+    · simp only [step?, hc]
+      cases hrp : c.reply <;> simp_all
+    · simp only [step?, hc]
+      cases hp : c.phase <;> simp_all
+
+/-- No lost requests: while the request pool is not stopped, the handler task of an accepted connection can begin
+    (`handlerStart` is enabled); the only reachable states in which a queued task cannot begin are those where
+    `server_close()` has returned (`pool.stop()` drops the tasks still queued — its documented semantics; the harness
+    states that only *started* requests count as in flight).  On the plain server no connection is ever queued: it is
+    accepted by the thread that runs its handler.  Then the handler can read the request as soon as it arrives. -/
+theorem C12_accepted_is_started (cfg : Cfg) (f : Nat → Nat → Nat) (s : State) (h : Reach cfg f s) (i : Nat) (c : Conn)
+    (hc : s.conns[i]? = some c) :
+    (c.phase = .queued → cfg.plain = false ∧ ((step? cfg f s (.handlerStart i)).isSome = true ∨ s.cpc = .returned)) ∧
+    (c.phase = .awaiting → c.reply = none → (step? cfg f s (.request i)).isSome = true) := by
+  have g := good_of_reach cfg f s h
+  have hmem := List.mem_of_getElem? hc
+  have hok := g.conns c hmem
+  constructor
+  · intro hq
+    have hpl : cfg.plain = false := by
+      cases hpl : cfg.plain
+      · rfl
+      · exact absurd hq (hok.noQueue hpl)
+    refine ⟨hpl, ?_⟩
+    cases hps : s.poolStopped
+    · left; simp [step?, hc, hq, hpl, hps]
+    · right; exact (g.poolIff.mp hps).1
+  · intro haw hr
+    have hmay : mayRun cfg s i = true := by
+      cases hpl : cfg.plain
+      · simp [mayRun, hpl]
+      · simp [mayRun, hpl, g.activeHandled hpl i c hc (Or.inl haw)]
+    simp [step?, hc, haw, hr, hmay]
+
+/- ---------- survival after failing / malformed requests ---------- -/
+
+/-- The server is inside its serving loop and can accept: loop entered and not left, listening socket open, request
+    pool not stopped, (plain) the serving thread is not inside a handler. -/
+def Ready (cfg : Cfg) (s : State) : Prop :=
+  s.spc = .loop ∧ s.socketOpen = true ∧ s.poolStopped = false ∧ busy cfg s = false
+
+/-- The steps by which one more request (body `b`, kind `k`) is served on a fresh connection of index `n`. -/
+def serveOne (cfg : Cfg) (n : Nat) (b : Nat) (k : Kind) : List Action :=
+  [.accept b k false] ++ (if cfg.plain then [] else [.handlerStart n]) ++ [.request n, .handlerFinish n]
+
+/-- A ready server serves the next request, whatever it is: the connection is accepted, its handler starts, reads
+    the request and answers with the reply to that request; afterwards the server is ready again and the older
+    connections are untouched.  (`catchAll`: the `except` clauses of the serve path are bare — `C12_gen_catchAll`.) -/
+theorem C12_serves_next (cfg : Cfg) (f : Nat → Nat → Nat) (hcatch : cfg.catchAll = true) (s : State)
+    (hr : Ready cfg s) (b : Nat) (k : Kind) :
+    ∃ s', run cfg f s (serveOne cfg s.conns.length b k) = some s' ∧ Ready cfg s' ∧
+      s'.conns = s.conns ++ [{ body := b, kind := k, phase := .closed, execs := execOf k,
+                               reply := some (replyOf f (if cfg.sharedWrites then b else s.disp) k b) }] := by
+  obtain ⟨h1, h2, h3, h4⟩ := hr
+  cases hpl : cfg.plain
+  · simp [serveOne, run, step?, h1, h2, h3, h4, hpl, hcatch, mayRun, Ready, busy]
+  · have hnone : s.handling = none := by simpa [busy, hpl] using h4
+    simp [serveOne, run, step?, h1, h2, h3, h4, hpl, hcatch, mayRun, Ready, busy, hnone]
+
+/-- A request that fails — a method raising an ordinary exception or a `BaseException`, a malformed body — or
+    succeeds is a matter of its own connection only: its handler can always finish, the reply (result or error
+    object) to that very request is written, and nothing else changes: not the serving thread (which stays in its
+    loop), not the flags, not the pool, not any other connection. -/
+theorem C12_failure_is_local (cfg : Cfg) (f : Nat → Nat → Nat) (hcatch : cfg.catchAll = true) (s : State)
+    (h : Reach cfg f s) (i : Nat) (c : Conn) (hc : s.conns[i]? = some c) (hrun : c.phase = .running) :
+    ∃ s', step? cfg f s (.handlerFinish i) = some s' ∧
+      s'.conns[i]? = some { c with reply := some (replyOf f s.disp c.kind c.body), execs := execOf c.kind,
+                                   phase := if c.keepAlive then .awaiting else .closed } ∧
+      (∀ j, j ≠ i → s'.conns[j]? = s.conns[j]?) ∧
+      s'.spc = s.spc ∧ s'.serving = s.serving ∧ s'.shutdownReq = s.shutdownReq ∧ s'.isShutDown = s.isShutDown ∧
+      s'.socketOpen = s.socketOpen ∧ s'.poolStopped = s.poolStopped ∧ s'.cpc = s.cpc ∧ s'.dpc = s.dpc ∧
+      s'.disp = s.disp ∧ (c.keepAlive = false → busy cfg s' = false) := by
+  have g := good_of_reach cfg f s h
+  have hok := g.conns c (List.mem_of_getElem? hc)
+  have hex : c.execs = 0 := (hok.fresh (Or.inr hrun)).2
+  have hmay : mayRun cfg s i = true := by
+    cases hpl : cfg.plain
+    · simp [mayRun, hpl]
+    · simp [mayRun, hpl, g.activeHandled hpl i c hc (Or.inr hrun)]
+  refine ⟨{ s with conns := s.conns.set i { c with reply := some (replyOf f s.disp c.kind c.body),
+                                                    execs := c.execs + execOf c.kind,
+                                                    phase := if c.keepAlive then .awaiting else .closed },
+                    handling := if c.keepAlive then s.handling else none },
+    by simp only [step?, hc, hmay, hrun, hcatch, and_self, true_or, if_true], ?_, ?_, rfl, rfl, rfl, rfl, rfl, rfl,
+    rfl, rfl, rfl, ?_⟩
+  · simp [set_get_self hc, hex]
+  · intro j hj; exact set_get_ne hj
+  · intro hka; simp [busy, hka]
+
+/-- **Survival.**  After a failing or malformed request — indeed after any reachable history, with any number of
+    such requests on other connections — a serving server still serves: the request in flight on connection `i`
+    (whatever its kind) is answered with its own reply (error object for a failing method, parse error for a
+    malformed body), the server is ready again, and every later request `(b, k)` is accepted, started and answered
+    with the reply to that request. -/
+theorem C12_survives (cfg : Cfg) (f : Nat → Nat → Nat) (hcatch : cfg.catchAll = true) (s : State)
+    (h : Reach cfg f s) (hloop : s.spc = .loop) (hopen : s.socketOpen = true) (hpool : s.poolStopped = false)
+    (i : Nat) (c : Conn) (hc : s.conns[i]? = some c) (hrun : c.phase = .running) (hka : c.keepAlive = false) :
+    ∃ s1, step? cfg f s (.handlerFinish i) = some s1 ∧
+      (s1.conns[i]?).map (·.reply) = some (some (replyOf f s.disp c.kind c.body)) ∧
+      (cfg.plain = true → Ready cfg s1) ∧
+      (Ready cfg s1 → ∀ b k, ∃ s2, run cfg f s1 (serveOne cfg s1.conns.length b k) = some s2 ∧ Ready cfg s2 ∧
+        (s2.conns[s1.conns.length]?).map (·.reply) = some (some (replyOf f (if cfg.sharedWrites then b else s1.disp) k b))) := by
+  obtain ⟨s1, hs1, hci, _, e1, _, _, _, e2, e3, _, _, _, hb⟩ := C12_failure_is_local cfg f hcatch s h i c hc hrun
+  refine ⟨s1, hs1, by simp [hci], ?_, ?_⟩
+  · intro _
+    exact ⟨by rw [e1, hloop], by rw [e2, hopen], by rw [e3, hpool], hb hka⟩
+  · intro hr b k
+    obtain ⟨s2, hs2, hr2, hconns⟩ := C12_serves_next cfg f hcatch s1 hr b k
+    exact ⟨s2, hs2, hr2, by simp [hconns]⟩
+
+/- Non-vacuity / the pooled case of `Ready`: on the pooled server the serving thread never runs a handler, so `Ready`
+   only asks for the loop, the socket and the pool. -/
+theorem C12_ready_pooled (cfg : Cfg) (hpl : cfg.plain = false) (s : State) (hloop : s.spc = .loop)
+    (hopen : s.socketOpen = true) (hpool : s.poolStopped = false) : Ready cfg s :=
+  ⟨hloop, hopen, hpool, by simp [busy, hpl]⟩
+
+/- Non-vacuity of `C12_survives`: a plain server; a method raising SystemExit, a malformed body, a failing method, then
+   a healthy call: every one answered with its own reply, the callable run once (not for the malformed body). -/
+example : ((run { plain := true } (fun _ b => b + 1000) init
+    ([.startServe, .serveStep, .serveStep] ++ serveOne { plain := true } 0 1 .fatal ++ serveOne { plain := true } 1 2 .malformed
+      ++ serveOne { plain := true } 2 3 .failing ++ serveOne { plain := true } 3 4 .good)).map
+      (fun s => (s.spc, s.conns.map (fun c => (c.reply, c.execs)))))
+      = some (.loop, [(some (.error 1001), 1), (some .parseError, 0), (some (.error 1003), 1), (some (.result 1004), 1)]) := by
+  decide
+
+/- The hypothesis `catchAll` is needed: if the `except` clauses caught `Exception` only, a method raising SystemExit
+   on the plain server would take the serving thread out of its loop — no later connection is accepted. -/
+example : ((run { plain := true, catchAll := false } (fun _ b => b + 1000) init
+    ([.startServe, .serveStep, .serveStep] ++ serveOne { plain := true } 0 1 .fatal)).map
+      (fun s => (s.spc, s.conns.map (·.reply), step? { plain := true, catchAll := false } (fun _ b => b + 1000) s (.accept 2 .good false))))
+      = some (.exitResetReq, [none], none) := by
+  decide
+
+/- ---------- stopping ---------- -/
+
+private theorem mayRun_pooled (cfg : Cfg) (s : State) (i : Nat) (hpl : cfg.plain = false) : mayRun cfg s i = true := by
+  simp [mayRun, hpl]
+
+/-- A begun handler either has a request in flight — and then it can finish — or waits for one on an idle connection
+    — and then the client's disconnection ends it. -/
+private theorem active_can_end (cfg : Cfg) (f : Nat → Nat → Nat) (s : State) (i : Nat) (c : Conn)
+    (hc : s.conns[i]? = some c) (hmay : mayRun cfg s i = true) (hact : c.phase = .awaiting ∨ c.phase = .running) :
+    (c.phase = .running ∧ (step? cfg f s (.handlerFinish i)).isSome = true) ∨
+    (c.phase = .awaiting ∧ (step? cfg f s (.clientClose i)).isSome = true) := by
+  rcases hact with h | h
+  · right; exact ⟨h, by simp [step?, hc, hmay, h]⟩
+  · left; refine ⟨h, ?_⟩
+    simp only [step?, hc, hmay, h, and_self, if_true]
+    split <;> simp
+
+/-- `server_close()` is never stuck — except behind in-flight connections: at every point of `server_close()` in
+    every reachable state, either the closing thread has an enabled step; or it waits for `is_shut_down` and the serving
+    thread has an enabled step that strictly decreases the number of steps left before it sets the event (so under fair
+    scheduling the wait ends; in particular the closing thread never waits when the server never served); or it is in
+    `pool.stop()` and some connection `i` is in flight: its request is being dispatched, and the handler can finish — or
+    its handler waits for the request (idle connection), which ends when its client disconnects.
+    (`C12_full_statement` packages this with `C12_shutdown_no_stuck`.) -/
+theorem C12_close_no_stuck (cfg : Cfg) (f : Nat → Nat → Nat) (s : State) (h : Reach cfg f s)
+    (hi : s.cpc ≠ .idle) (hr : s.cpc ≠ .returned) :
+    (step? cfg f s .closeStep).isSome = true ∨
+    (s.cpc = .waitEvent ∧
+      ∃ s', step? cfg f s .serveStep = some s' ∧ serveRemaining s' < serveRemaining s ∧ s'.cpc = .waitEvent) ∨
+    (s.cpc = .stopPool ∧ ∃ i c, s.conns[i]? = some c ∧
+      ((c.phase = .running ∧ (step? cfg f s (.handlerFinish i)).isSome = true) ∨
+       (c.phase = .awaiting ∧ (step? cfg f s (.clientClose i)).isSome = true))) := by
+  have g := good_of_reach cfg f s h
+  cases hcp : s.cpc with
+  | idle => exact absurd hcp hi
+  | returned => exact absurd hcp hr
+  | readServing => left; simp [step?, hcp]
+  | setReq => left; simp [step?, hcp]
+  | closeSocket => left; simp [step?, hcp]
+  | waitEvent =>
+    have hpl : cfg.plain = false := by
+      cases hpl : cfg.plain
+      · rfl
+      · have := g.plainCloser hpl; simp [hcp] at this
+    have hb : busy cfg s = false := by simp [busy, hpl]
+    have h3 := g.closerAfterServe (Or.inr hcp)
+    cases hev : s.isShutDown
+    · right; left; refine ⟨rfl, ?_⟩
+      cases hp : s.spc with
+      | notStarted => exact absurd hp h3.1
+      | setServing => exact absurd hp h3.2
+      | clearEvent =>
+        refine ⟨_, serve_clearEvent cfg f s hp, ?_, ?_⟩ <;> split <;> simp [serveRemaining, hp, hcp]
+      | loop =>
+        have hreq := g.reqKept hcp (Or.inr hp)
+        exact ⟨_, serve_loop_req cfg f s hp hb hreq, by simp [serveRemaining, hp], by simp [hcp]⟩
+      | exitResetReq => exact ⟨_, serve_exitResetReq cfg f s hp, by simp [serveRemaining, hp], by simp [hcp]⟩
+      | exitSetEvent => exact ⟨_, serve_exitSetEvent cfg f s hp, by simp [serveRemaining, hp], by simp [hcp]⟩
+      | clearServing => have := g.eventSet (Or.inl hp); simp [hev] at this
+      | finished => have := g.eventSet (Or.inr hp); simp [hev] at this
+    · left; simp [step?, hcp, hev]
+  | stopPool =>
+    have hpl : cfg.plain = false := by
+      cases hpl : cfg.plain
+      · rfl
+      · have := g.plainCloser hpl; simp [hcp] at this
+    cases hany : s.conns.any (fun c => c.phase == .awaiting || c.phase == .running)
+    · left
+      have hall : ∀ c ∈ s.conns, c.phase ≠ .awaiting ∧ c.phase ≠ .running := by
+        intro c hc
+        have := List.any_eq_false.mp hany c hc
+        cases hp : c.phase <;> simp_all
+      simp [step?, hcp, drained_all hall]
+    · right; right; refine ⟨rfl, ?_⟩
+      obtain ⟨c, hmem, hact⟩ := List.any_eq_true.mp hany
+      obtain ⟨i, hc⟩ := List.getElem?_of_mem hmem
+      refine ⟨i, c, hc, active_can_end cfg f s i c hc (mayRun_pooled cfg s i hpl) ?_⟩
+      cases hp : c.phase <;> simp_all
+
+/-- The same for `shutdown()` issued while serving.  On the pooled server the serving thread never runs a handler, so
+    `shutdown()` waits for the serving thread only; on the plain server the serving thread may be inside the handler
+    of a connection in flight: dispatching its request, which can finish — or waiting for it (idle). -/
+theorem C12_shutdown_no_stuck (cfg : Cfg) (f : Nat → Nat → Nat) (s : State) (h : Reach cfg f s) (hw : s.dpc = .waitEvent) :
     s.isShutDown = true ∨
-    (∃ s', step? f s .serveStep = some s' ∧ serveRemaining s' < serveRemaining s ∧ s'.cpc = .waitEvent) := by
-  have g := good_of_reach f s h
-  have h3 := g.closerAfterServe (Or.inr hw)
-  cases hp : s.spc with
-  | notStarted => exact absurd hp h3.1
-  | setServing => exact absurd hp h3.2
-  | clearEvent =>
-    right
-    refine ⟨_, serve_clearEvent f s hp, ?_, ?_⟩ <;> split <;> simp [serveRemaining, hp, hw]
-  | loop =>
-    right
-    have hreq := g.reqKept hw (Or.inr hp)
-    exact ⟨_, serve_loop_req f s hp hreq, by simp [serveRemaining, hp], by simp [hw]⟩
-  | exitResetReq => right; exact ⟨_, serve_exitResetReq f s hp, by simp [serveRemaining, hp], by simp [hw]⟩
-  | exitSetEvent => right; exact ⟨_, serve_exitSetEvent f s hp, by simp [serveRemaining, hp], by simp [hw]⟩
-  | clearServing => left; exact g.eventSet (Or.inl hp)
-  | finished => left; exact g.eventSet (Or.inr hp)
-
-/-- The same for an external `shutdown()` issued while serving. -/
-theorem C12_shutdown_no_stuck (f : Nat → Nat) (s : State) (h : Reach f s) (hw : s.dpc = .waitEvent) :
-    s.isShutDown = true ∨
-    (∃ s', step? f s .serveStep = some s' ∧ serveRemaining s' < serveRemaining s ∧ s'.dpc = .waitEvent) := by
-  have g := good_of_reach f s h
+    (∃ s', step? cfg f s .serveStep = some s' ∧ serveRemaining s' < serveRemaining s ∧ s'.dpc = .waitEvent) ∨
+    (cfg.plain = true ∧ ∃ i c, s.handling = some i ∧ s.conns[i]? = some c ∧
+      ((c.phase = .running ∧ (step? cfg f s (.handlerFinish i)).isSome = true) ∨
+       (c.phase = .awaiting ∧ (step? cfg f s (.clientClose i)).isSome = true))) := by
+  have g := good_of_reach cfg f s h
   have h3 := g.dAfterServe (Or.inr hw)
   cases hp : s.spc with
   | notStarted => exact absurd hp h3.1
@@ -212,119 +746,395 @@ theorem C12_shutdown_no_stuck (f : Nat → Nat) (s : State) (h : Reach f s) (hw 
   | loop =>
     right
     have hreq := g.reqKeptD hw (Or.inr hp)
-    exact ⟨_, serve_loop_req f s hp hreq, by simp [serveRemaining, hp], by simp [hw]⟩
-  | exitResetReq => right; exact ⟨_, serve_exitResetReq f s hp, by simp [serveRemaining, hp], by simp [hw]⟩
-  | exitSetEvent => right; exact ⟨_, serve_exitSetEvent f s hp, by simp [serveRemaining, hp], by simp [hw]⟩
+    cases hb : busy cfg s
+    · left; exact ⟨_, serve_loop_req cfg f s hp hb hreq, by simp [serveRemaining, hp], by simp [hw]⟩
+    · right
+      simp only [busy, Bool.and_eq_true] at hb
+      obtain ⟨hpl, hh⟩ := hb
+      cases hhd : s.handling with
+      | none => simp [hhd] at hh
+      | some i =>
+        obtain ⟨c, hc, hact⟩ := g.handlingOk i hhd
+        exact ⟨hpl, i, c, rfl, hc, active_can_end cfg f s i c hc (by simp [mayRun, hhd]) hact⟩
+  | exitResetReq => right; left; exact ⟨_, serve_exitResetReq cfg f s hp, by simp [serveRemaining, hp], by simp [hw]⟩
+  | exitSetEvent => right; left; exact ⟨_, serve_exitSetEvent cfg f s hp, by simp [serveRemaining, hp], by simp [hw]⟩
   | clearServing => left; exact g.eventSet (Or.inl hp)
   | finished => left; exact g.eventSet (Or.inr hp)
 
-/-- The other steps of `server_close()` are never blocked except `pool.stop()`, which waits exactly for the
-    in-flight requests (handler tasks that started and have not replied) — and those can always finish. -/
-theorem C12_close_steps_enabled (f : Nat → Nat) (s : State) :
-    (s.cpc = .readServing ∨ s.cpc = .setReq ∨ s.cpc = .closeSocket → (step? f s .closeStep).isSome = true) ∧
-    (s.cpc = .stopPool → inFlight s = false → (step? f s .closeStep).isSome = true) ∧
-    (∀ i c, s.conns[i]? = some c → c.started = true → c.reply = none → (step? f s (.handlerFinish i)).isSome = true) := by
+/-- The steps of `server_close()` other than the two waits are never blocked; `pool.stop()` goes through as soon as
+    nothing is in flight (no begun, unfinished connection); a request being dispatched can always finish. -/
+theorem C12_close_steps_enabled (cfg : Cfg) (f : Nat → Nat → Nat) (s : State) (h : Reach cfg f s) :
+    (s.cpc = .readServing ∨ s.cpc = .setReq ∨ s.cpc = .closeSocket → (step? cfg f s .closeStep).isSome = true) ∧
+    (s.cpc = .stopPool → inFlight s = false → (step? cfg f s .closeStep).isSome = true) ∧
+    (∀ i c, s.conns[i]? = some c → c.phase = .running → (step? cfg f s (.handlerFinish i)).isSome = true) := by
+  have g := good_of_reach cfg f s h
   refine ⟨?_, ?_, ?_⟩
   · rintro (h | h | h) <;> simp [step?, h]
-  · intro h hin
-    simp only [step?, h]
-    have : (s.conns.all fun c => !c.started || c.reply.isSome) = true := by
-      simp only [inFlight, List.any_eq_false, Bool.and_eq_true, not_and, Bool.not_eq_true] at hin
-      simp only [List.all_eq_true, Bool.or_eq_true, Bool.not_eq_true']
+  · intro hcp hin
+    have hall : ∀ c ∈ s.conns, c.phase ≠ .awaiting ∧ c.phase ≠ .running := by
       intro c hc
-      by_cases hst : c.started = true
-      · right; have := hin c hc hst; cases hr : c.reply <;> simp_all
-      · left; simpa using hst
-    simp [this]
-  · intro i c hc hst hr
-    simp [step?, hc, hst, hr]
+      have := List.any_eq_false.mp hin c hc
+      cases hp : c.phase <;> simp_all
+    simp [step?, hcp, drained_all hall]
+  · intro i c hc hrun
+    have hmay : mayRun cfg s i = true := by
+      cases hpl : cfg.plain
+      · simp [mayRun, hpl]
+      · simp [mayRun, hpl, g.activeHandled hpl i c hc (Or.inr hrun)]
+    rcases active_can_end cfg f s i c hc hmay (Or.inr hrun) with ⟨_, h⟩ | ⟨h, _⟩
+    · exact h
+    · simp [hrun] at h
 
-/-- After `server_close()` has returned: the listening socket is closed, the request pool is stopped, every
-    request that was in flight has completed, and nothing starts any more. -/
-theorem C12_close_post (f : Nat → Nat) (s : State) (h : Reach f s) (hr : s.cpc = .returned) :
-    s.socketOpen = false ∧ s.poolStopped = true ∧ inFlight s = false ∧
-    (∀ i, step? f s (.handlerStart i) = none) ∧ (∀ b, step? f s (.accept b) = none) := by
-  have g := good_of_reach f s h
+/-- After `server_close()` has returned: the listening socket is closed and nothing is accepted any more; on the
+    pooled server the request pool is stopped, nothing is in flight (no handler holds a worker), and no handler task
+    starts any more. -/
+theorem C12_close_post (cfg : Cfg) (f : Nat → Nat → Nat) (s : State) (h : Reach cfg f s) (hr : s.cpc = .returned) :
+    s.socketOpen = false ∧ (∀ b k ka, step? cfg f s (.accept b k ka) = none) ∧
+    (cfg.plain = false → s.poolStopped = true ∧ inFlight s = false ∧
+      (∀ i, step? cfg f s (.handlerStart i) = none)) := by
+  have g := good_of_reach cfg f s h
   have hso := g.socketClosed (Or.inr hr)
-  have hps := g.poolIff.mpr hr
-  refine ⟨hso, hps, ?_, ?_, ?_⟩
-  · simp only [inFlight, List.any_eq_false, Bool.and_eq_true, not_and, Bool.not_eq_true]
-    intro c hc hst
-    have := g.drained hps c hc hst
-    cases hrp : c.reply <;> simp_all
-  · intro i
-    simp only [step?]
-    cases s.conns[i]? <;> simp [hps]
-  · intro b; simp [step?, hso]
+  refine ⟨hso, ?_, ?_⟩
+  · intro b k ka; simp [step?, hso]
+  · intro hpl
+    have hps := g.poolIff.mpr ⟨hr, hpl⟩
+    have hd := g.drained hps
+    refine ⟨hps, ?_, ?_⟩
+    · simp only [inFlight, List.any_eq_false]
+      intro c hc; rcases hd c hc with h | h <;> simp [h]
+    · intro i
+      simp only [step?]
+      cases s.conns[i]? <;> simp [hps]
 
-/-- Closing a server that never served goes straight through: four steps, no waiting. -/
-theorem C12_close_without_serving (f : Nat → Nat) :
-    (run f init [.beginClose, .closeStep, .closeStep, .closeStep]).map (fun s => (s.cpc, s.socketOpen, s.poolStopped))
-      = some (.returned, false, true) := by
-  simp [run, step?, init]
+/-- Closing a server that never served goes straight through: no waiting (pooled: four steps, plain: two). -/
+theorem C12_close_without_serving (f : Nat → Nat → Nat) :
+    (run {} f init [.beginClose, .closeStep, .closeStep, .closeStep]).map (fun s => (s.cpc, s.socketOpen, s.poolStopped))
+      = some (.returned, false, true) ∧
+    (run { plain := true } f init [.beginClose, .closeStep]).map (fun s => (s.cpc, s.socketOpen))
+      = some (.returned, false) := by
+  constructor <;> simp [run, step?, init]
 
+/- ---------- the stop clause, and idle connections ---------- -/
+
+theorem life_reach_of_run (cfg : Cfg) (f : Nat → Nat → Nat) (s s' : State) (as : List Action) (h : Reach cfg f s)
+    (hr : run cfg f s as = some s') : Reach cfg f s' := by
+  induction as generalizing s with
+  | nil => simp [run] at hr; subst hr; exact h
+  | cons a rest ih =>
+    simp only [run] at hr
+    cases hst : step? cfg f s a with
+    | none => simp [hst] at hr
+    | some s1 => simp only [hst] at hr; exact ih s1 (Reach.step a h hst) hr
+
+private theorem inFlight_of_active {s : State} {i : Nat} {c : Conn} (hc : s.conns[i]? = some c)
+    (h : c.phase = .running ∨ c.phase = .awaiting) : inFlight s = true := by
+  simp only [inFlight, List.any_eq_true]
+  exact ⟨c, List.mem_of_getElem? hc, by rcases h with h | h <;> simp [h]⟩
+
+/-- **The stop clause of the property** ("stopping … always terminates once in-flight requests complete"), with
+    in flight = accepted, handler begun, not yet answered / disconnected.  In every reachable state of a plain or pooled
+    server, whatever the requests and the interleaving:
+    1. a `server_close()` under way either has an enabled step, or waits for the serving thread, which has an enabled
+       step strictly decreasing the number of steps before it sets the event (never the case if the server never
+       served), or sits in `pool.stop()` while something is in flight — nothing else ever holds it back;
+    2. a `shutdown()` under way has been answered, or the serving thread has such a step, or (plain server only: the
+       serving thread runs the handlers) something is in flight;
+    3. every in-flight connection can complete: if its request is being dispatched, by a step of the server (the
+       handler finishes and writes the reply, whatever the method does); if its handler waits for the request, by a
+       step of its client — which can disconnect, and can send its request if it has not had its reply yet.
+    So once the in-flight connections have completed, the stop operations terminate (under fair scheduling). -/
+theorem C12_full_statement (cfg : Cfg) (f : Nat → Nat → Nat) (s : State) (h : Reach cfg f s) :
+    (s.cpc ≠ .idle → s.cpc ≠ .returned →
+      (step? cfg f s .closeStep).isSome = true ∨
+      (s.cpc = .waitEvent ∧
+        ∃ s', step? cfg f s .serveStep = some s' ∧ serveRemaining s' < serveRemaining s ∧ s'.cpc = .waitEvent) ∨
+      (s.cpc = .stopPool ∧ inFlight s = true)) ∧
+    (s.dpc = .waitEvent →
+      s.isShutDown = true ∨
+      (∃ s', step? cfg f s .serveStep = some s' ∧ serveRemaining s' < serveRemaining s ∧ s'.dpc = .waitEvent) ∨
+      (cfg.plain = true ∧ inFlight s = true)) ∧
+    (∀ i c, s.conns[i]? = some c → (c.phase = .running ∨ c.phase = .awaiting) →
+      (c.phase = .running ∧ (step? cfg f s (.handlerFinish i)).isSome = true) ∨
+      (c.phase = .awaiting ∧ (step? cfg f s (.clientClose i)).isSome = true ∧
+        (c.reply = none → (step? cfg f s (.request i)).isSome = true))) := by
+  have g := good_of_reach cfg f s h
+  refine ⟨?_, ?_, ?_⟩
+  · intro hi hr
+    rcases C12_close_no_stuck cfg f s h hi hr with h1 | h2 | ⟨hcp, i, c, hc, hact⟩
+    · exact Or.inl h1
+    · exact Or.inr (Or.inl h2)
+    · refine Or.inr (Or.inr ⟨hcp, inFlight_of_active hc ?_⟩)
+      rcases hact with ⟨h, _⟩ | ⟨h, _⟩
+      · exact Or.inl h
+      · exact Or.inr h
+  · intro hw
+    rcases C12_shutdown_no_stuck cfg f s h hw with h1 | h2 | ⟨hpl, i, c, _, hc, hact⟩
+    · exact Or.inl h1
+    · exact Or.inr (Or.inl h2)
+    · refine Or.inr (Or.inr ⟨hpl, inFlight_of_active hc ?_⟩)
+      rcases hact with ⟨h, _⟩ | ⟨h, _⟩
+      · exact Or.inl h
+      · exact Or.inr h
+  · intro i c hc hact
+    have hmay : mayRun cfg s i = true := by
+      cases hpl : cfg.plain
+      · simp [mayRun, hpl]
+      · simp [mayRun, hpl, g.activeHandled hpl i c hc (by rcases hact with h | h; exact Or.inr h; exact Or.inl h)]
+    rcases active_can_end cfg f s i c hc hmay (by rcases hact with h | h; exact Or.inr h; exact Or.inl h) with h1 | ⟨haw, hcl⟩
+    · exact Or.inl h1
+    · refine Or.inr ⟨haw, hcl, fun hr => ?_⟩
+      simp [step?, hc, hmay, haw, hr]
+
+/-- Pooled server: serve; a client connects and its handler starts (it waits for a request that is never sent);
+    `server_close()`: the serving loop is shut down, the listening socket closed, and then `pool.stop()`. -/
+def idleHistoryPooled : List Action :=
+  [.startServe, .serveStep, .serveStep, .accept 1 .good false, .handlerStart 0,
+   .beginClose, .closeStep, .closeStep, .serveStep, .serveStep, .serveStep, .closeStep, .closeStep]
+
+/-- Plain server: serve; a client connects (the serving thread is inside its handler, waiting for the request);
+    `shutdown()` sets the request flag and waits for the event. -/
+def idleHistoryPlain : List Action :=
+  [.startServe, .serveStep, .serveStep, .accept 1 .good false, .beginShutdown, .shutdownStep]
+
+/-- An idle connection holds the stop operations (concrete histories, `idleHistoryPooled` / `idleHistoryPlain`): no
+    method is executing, yet the pooled server's `server_close()` sits in `pool.stop()` (its step is disabled) and the
+    plain server's `shutdown()` waits for an event that the serving thread cannot set because it is inside the handler
+    of the idle connection (its step is disabled too).  In both the operation goes through as soon as the client
+    disconnects.  (Observed on the real servers: histories `idle` / `idleka` of harness/props/c12.py.) -/
+theorem C12_idle_connection_holds_stop (f : Nat → Nat → Nat) :
+    (∃ (history : List Action) (s : State), run {} f init history = some s ∧
+      s.cpc = .stopPool ∧ executing s = false ∧ idleConn s = true ∧ inFlight s = true ∧ step? {} f s .closeStep = none ∧
+      (run {} f s [.clientClose 0, .closeStep]).map (·.cpc) = some .returned) ∧
+    (∃ (history : List Action) (s : State), run { plain := true } f init history = some s ∧
+      s.dpc = .waitEvent ∧ executing s = false ∧ idleConn s = true ∧ inFlight s = true ∧ s.isShutDown = false ∧
+      step? { plain := true } f s .shutdownStep = none ∧ step? { plain := true } f s .serveStep = none ∧
+      (run { plain := true } f s [.clientClose 0, .serveStep, .serveStep, .serveStep, .shutdownStep]).map (·.dpc)
+        = some .returned) := by
+  constructor
+  · refine ⟨idleHistoryPooled, _, rfl, ?_⟩
+    simp [run, step?, init, inFlight, executing, idleConn, Conn.started, Conn.done, mayRun, busy]
+  · refine ⟨idleHistoryPlain, _, rfl, ?_⟩
+    simp [run, step?, init, inFlight, executing, idleConn, mayRun, busy]
+
+/-- In general: while a connection's handler waits for its request, `pool.stop()` cannot return; the client's
+    disconnection is enabled, and if that connection was the only one in flight, `pool.stop()` can return right after. -/
+theorem C12_idle_released_by_client (cfg : Cfg) (f : Nat → Nat → Nat) (s : State) (h : Reach cfg f s)
+    (hcp : s.cpc = .stopPool) (i : Nat) (c : Conn) (hc : s.conns[i]? = some c) (haw : c.phase = .awaiting)
+    (honly : ∀ j cj, j ≠ i → s.conns[j]? = some cj → cj.phase ≠ .awaiting ∧ cj.phase ≠ .running) :
+    step? cfg f s .closeStep = none ∧
+    ∃ s1, step? cfg f s (.clientClose i) = some s1 ∧ inFlight s1 = false ∧ (step? cfg f s1 .closeStep).isSome = true := by
+  have g := good_of_reach cfg f s h
+  have hpl : cfg.plain = false := by
+    cases hpl : cfg.plain
+    · rfl
+    · have := g.plainCloser hpl; simp [hcp] at this
+  have hmem := List.mem_of_getElem? hc
+  constructor
+  · have : s.conns.all (fun c => !c.started || c.done) = false := by
+      rw [List.all_eq_false]
+      exact ⟨c, hmem, by simp [Conn.started, Conn.done, haw]⟩
+    simp [step?, hcp, this]
+  · have hall : ∀ x ∈ s.conns.set i { c with phase := .closed }, x.phase ≠ .awaiting ∧ x.phase ≠ .running := by
+      intro x hx
+      obtain ⟨j, hj⟩ := List.getElem?_of_mem hx
+      rcases get_set hc hj with ⟨_, rfl⟩ | ⟨hji, hj⟩
+      · simp
+      · exact honly j x hji hj
+    refine ⟨{ s with conns := s.conns.set i { c with phase := .closed }, handling := none },
+      by simp [step?, hc, haw, mayRun, hpl], ?_, ?_⟩
+    · simp only [inFlight, List.any_eq_false]
+      intro x hx
+      have := hall x hx
+      cases hp : x.phase <;> simp_all
+    · simp [step?, hcp, drained_all hall]
+
+/-- An idle connection stays idle until its client sends a request or disconnects: no step of the server — serving
+    thread, closing thread, shutdown caller, other handlers — changes that.  So a stop operation held by an idle
+    connection can only be released by the client. -/
+theorem C12_idle_persist (cfg : Cfg) (f : Nat → Nat → Nat) (s s' : State) (a : Action)
+    (hs : step? cfg f s a = some s') (i : Nat) (c : Conn) (hc : s.conns[i]? = some c) (haw : c.phase = .awaiting)
+    (ha1 : a ≠ .request i) (ha2 : a ≠ .clientClose i) : ∃ c', s'.conns[i]? = some c' ∧ c'.phase = .awaiting := by
+  have keep : ∀ (j : Nat) (cj cj' : Conn), s.conns[j]? = some cj → (j = i → False) →
+      ∃ c', (s.conns.set j cj')[i]? = some c' ∧ c'.phase = .awaiting := by
+    intro j cj cj' _ hne
+    exact ⟨c, by rw [set_get_ne (fun e => hne e.symm)]; exact hc, haw⟩
+  cases a with
+  | startServe => simp only [step?] at hs; split at hs <;> simp at hs; subst hs; exact ⟨c, hc, haw⟩
+  | serveStep =>
+    simp only [step?] at hs
+    cases hp : s.spc <;> simp only [hp] at hs
+    all_goals (try (simp at hs))
+    all_goals (try (split at hs))
+    all_goals (try (simp at hs))
+    all_goals (try (split at hs))
+    all_goals (try (simp at hs))
+    all_goals (try (obtain ⟨hcnd, hs⟩ := hs))
+    all_goals (try (subst hs))
+    all_goals exact ⟨c, hc, haw⟩
+  | accept b k ka =>
+    simp only [step?] at hs
+    split at hs <;> simp at hs
+    subst hs
+    have hlt : i < s.conns.length := (List.getElem?_eq_some_iff.mp hc).1
+    exact ⟨c, by simp [List.getElem?_append_left hlt, hc], haw⟩
+  | handlerStart j =>
+    simp only [step?] at hs
+    cases hcj : s.conns[j]? with
+    | none => simp [hcj] at hs
+    | some cj =>
+      simp only [hcj] at hs
+      split at hs <;> simp at hs
+      subst hs
+      rename_i hcond
+      exact keep j cj _ hcj (fun e => by subst e; rw [hc] at hcj; cases hcj; simp [haw] at hcond)
+  | request j =>
+    simp only [step?] at hs
+    cases hcj : s.conns[j]? with
+    | none => simp [hcj] at hs
+    | some cj =>
+      simp only [hcj] at hs
+      split at hs <;> simp at hs
+      subst hs
+      exact keep j cj _ hcj (fun e => ha1 (by rw [e]))
+  | handlerFinish j =>
+    simp only [step?] at hs
+    cases hcj : s.conns[j]? with
+    | none => simp [hcj] at hs
+    | some cj =>
+      simp only [hcj] at hs
+      split at hs
+      · rename_i hcond
+        have hne : j = i → False := fun e => by subst e; rw [hc] at hcj; cases hcj; simp [haw] at hcond
+        split at hs <;> simp at hs <;> subst hs <;> exact keep j cj _ hcj hne
+      · simp at hs
+  | clientClose j =>
+    simp only [step?] at hs
+    cases hcj : s.conns[j]? with
+    | none => simp [hcj] at hs
+    | some cj =>
+      simp only [hcj] at hs
+      split at hs <;> simp at hs
+      subst hs
+      exact keep j cj _ hcj (fun e => ha2 (by rw [e]))
+  | beginClose => simp only [step?] at hs; split at hs <;> simp at hs; subst hs; exact ⟨c, hc, haw⟩
+  | closeStep =>
+    simp only [step?] at hs
+    cases hp : s.cpc <;> simp only [hp] at hs
+    all_goals (try (simp at hs))
+    all_goals (try (split at hs))
+    all_goals (try (simp at hs))
+    all_goals (try (obtain ⟨hcnd, hs⟩ := hs))
+    all_goals (try (subst hs))
+    all_goals exact ⟨c, hc, haw⟩
+  | beginShutdown => simp only [step?] at hs; split at hs <;> simp at hs; subst hs; exact ⟨c, hc, haw⟩
+  | shutdownStep =>
+    simp only [step?] at hs
+    cases hp : s.dpc <;> simp only [hp] at hs
+    all_goals (try (simp at hs))
+    all_goals (try (split at hs))
+    all_goals (try (simp at hs))
+    all_goals (try (obtain ⟨hcnd, hs⟩ := hs))
+    all_goals (try (subst hs))
+    all_goals exact ⟨c, hc, haw⟩
 
 /- ---------- the request pool of `JRV.Model.ServerLife` instantiated by `JRV.Model.Pool` ---------- -/
 
-/-- The image, in the life-cycle model's connection table, of the pool task that carries the handler of a connection
-    with request body `body`: the handler has started iff the task body has been entered (`execCount = 1`), the reply is
-    written iff the task is finished. -/
-def connOfTask (f : Nat → Nat) (body : Nat) (tk : JRV.Pool.Task) : Conn :=
-  { body := body, started := tk.execCount == 1, reply := if tk.phase = .finished then some (f body) else none }
+/-- What the life-cycle model looks at in the handler task of a connection: has it begun, has it ended. -/
+structure TaskView where
+  started : Bool
+  done : Bool
+deriving DecidableEq, Repr
 
-private theorem pool_begin_is_handlerStart (f : Nat → Nat) (body : Nat → Nat)
-    (cfg : JRV.Pool.Config) (n : Nat) (ps ps' : JRV.Pool.State) (hr : JRV.Pool.Reach (JRV.Pool.init cfg n) ps)
+def viewOfConn (c : Conn) : TaskView := ⟨c.started, c.done⟩
+
+/-- The view of the pool task that carries the handler of a connection: the handler has begun iff the task body has
+    been entered (`execCount = 1`), it has ended iff the task is finished. -/
+def viewOfTask (tk : JRV.Pool.Task) : TaskView := ⟨tk.execCount == 1, decide (tk.phase = .finished)⟩
+
+/-- What the life-cycle model's own steps do to the view of a connection: `handlerStart` needs ⟨not begun⟩ and makes it
+    ⟨begun, not ended⟩; the two steps that end a handler (`handlerFinish` on a one-request connection, `clientClose`)
+    need ⟨begun, not ended⟩ and make it ⟨begun, ended⟩; `stopPool` needs `!started || done` of every connection. -/
+theorem C12_view_steps (cfg : Cfg) (f : Nat → Nat → Nat) (s s' : State) (i : Nat) (c : Conn) (hc : s.conns[i]? = some c) :
+    (step? cfg f s (.handlerStart i) = some s' →
+      viewOfConn c = ⟨false, false⟩ ∧ (s'.conns[i]?).map viewOfConn = some ⟨true, false⟩) ∧
+    (step? cfg f s (.handlerFinish i) = some s' → c.keepAlive = false →
+      viewOfConn c = ⟨true, false⟩ ∧ (s'.conns[i]?).map viewOfConn = some ⟨true, true⟩) ∧
+    (step? cfg f s (.clientClose i) = some s' →
+      viewOfConn c = ⟨true, false⟩ ∧ (s'.conns[i]?).map viewOfConn = some ⟨true, true⟩) := by
+  refine ⟨?_, ?_, ?_⟩
+  · intro hs
+    simp only [step?, hc] at hs
+    split at hs <;> simp at hs
+    subst hs
+    rename_i hcond
+    simp [viewOfConn, Conn.started, Conn.done, hcond.2.1, set_get_self hc]
+  · intro hs hka
+    simp only [step?, hc] at hs
+    split at hs
+    · rename_i hcond
+      split at hs <;> simp at hs <;> subst hs <;>
+        simp [viewOfConn, Conn.started, Conn.done, hcond.2, set_get_self hc, hka]
+    · simp at hs
+  · intro hs
+    simp only [step?, hc] at hs
+    split at hs <;> simp at hs
+    subst hs
+    rename_i hcond
+    simp [viewOfConn, Conn.started, Conn.done, hcond.2, set_get_self hc]
+
+private theorem pool_begin_is_handlerStart (cfg : JRV.Pool.Config) (n : Nat) (ps ps' : JRV.Pool.State) (hr : JRV.Pool.Reach (JRV.Pool.init cfg n) ps)
     (j : Nat) (w : JRV.Pool.Worker) (hw : ps.workers[j]? = some w) (hpc : w.pc = .begin)
     (h : JRV.Pool.step? ps ⟨.worker j, .taskBegin, false⟩ = some ps') :
     ∃ t tk tk', w.held = some t ∧ ps.tasks[t]? = some tk ∧ ps'.tasks[t]? = some tk' ∧
-      (connOfTask f (body t) tk).started = false ∧ (connOfTask f (body t) tk).reply = none ∧
-      connOfTask f (body t) tk' = { connOfTask f (body t) tk with started := true } := by
+      viewOfTask tk = ⟨false, false⟩ ∧ viewOfTask tk' = ⟨true, false⟩ := by
   obtain ⟨t, tk, hheld, htk, _, hph⟩ := (JRV.Pool.TaskInv_reach hr).wheld j w hw .held (by simp [JRV.Pool.phaseOfPc, hpc])
   have hex := (JRV.Pool.TaskInv_reach hr).exec t tk htk
   have hlt : t < ps.tasks.length := (List.getElem?_eq_some_iff.mp htk).1
   simp only [JRV.Pool.step?, hw, JRV.Pool.workerStep, hpc, hheld, hlt, if_true] at h
   injection h with h; subst h
-  refine ⟨t, tk, { tk with phase := .running, execCount := tk.execCount + 1 }, hheld, htk, ?_, ?_, ?_, ?_⟩
+  refine ⟨t, tk, { tk with phase := .running, execCount := tk.execCount + 1 }, hheld, htk, ?_, ?_, ?_⟩
   · simp only [JRV.Pool.setWorker, JRV.Pool.updTask]
     exact JRV.Pool.getElem?_modify_eq htk
-  · simp [connOfTask, hex, hph, JRV.Pool.execOf]
-  · simp [connOfTask, hph]
-  · simp [connOfTask, hex, hph, JRV.Pool.execOf]
+  · simp [viewOfTask, hex, hph, JRV.Pool.execOf]
+  · simp [viewOfTask, hex, hph, JRV.Pool.execOf]
 
-private theorem pool_end_is_handlerFinish (f : Nat → Nat) (body : Nat → Nat)
-    (cfg : JRV.Pool.Config) (n : Nat) (ps ps' : JRV.Pool.State) (hr : JRV.Pool.Reach (JRV.Pool.init cfg n) ps)
+private theorem pool_end_is_handlerFinish (cfg : JRV.Pool.Config) (n : Nat) (ps ps' : JRV.Pool.State) (hr : JRV.Pool.Reach (JRV.Pool.init cfg n) ps)
     (j : Nat) (w : JRV.Pool.Worker) (hw : ps.workers[j]? = some w) (hpc : w.pc = .body) (o : JRV.Pool.Outcome)
     (h : JRV.Pool.step? ps ⟨.worker j, .taskEnd o, false⟩ = some ps') :
     ∃ t tk tk', w.held = some t ∧ ps.tasks[t]? = some tk ∧ ps'.tasks[t]? = some tk' ∧
-      (connOfTask f (body t) tk).started = true ∧ (connOfTask f (body t) tk).reply = none ∧
-      connOfTask f (body t) tk' = { connOfTask f (body t) tk with reply := some (f (body t)) } := by
+      viewOfTask tk = ⟨true, false⟩ ∧ viewOfTask tk' = ⟨true, true⟩ := by
   obtain ⟨t, tk, hheld, htk, _, hph⟩ := (JRV.Pool.TaskInv_reach hr).wheld j w hw .running (by simp [JRV.Pool.phaseOfPc, hpc])
   have hex := (JRV.Pool.TaskInv_reach hr).exec t tk htk
   have hlt : t < ps.tasks.length := (List.getElem?_eq_some_iff.mp htk).1
   simp only [JRV.Pool.step?, hw, JRV.Pool.workerStep, hpc, hheld, hlt, if_true] at h
   injection h with h; subst h
-  refine ⟨t, tk, { tk with phase := .finished, outcome := some o }, hheld, htk, ?_, ?_, ?_, ?_⟩
+  refine ⟨t, tk, { tk with phase := .finished, outcome := some o }, hheld, htk, ?_, ?_, ?_⟩
   · simp only [JRV.Pool.setWorker, JRV.Pool.updTask]
     exact JRV.Pool.getElem?_modify_eq htk
-  · simp [connOfTask, hex, hph, JRV.Pool.execOf]
-  · simp [connOfTask, hph]
-  · simp [connOfTask, hex, hph, JRV.Pool.execOf]
+  · simp [viewOfTask, hex, hph, JRV.Pool.execOf]
+  · simp [viewOfTask, hex, hph, JRV.Pool.execOf]
 
 /-- **What `JRV.Model.ServerLife` assumes of its request pool is what the pool model provides** (safety half).
     The life-cycle model abstracts the request pool to three things; each is matched, in every reachable state of
-    `JRV.Model.Pool` (any pool size, any interleaving), through the map `connOfTask`:
-    1. `handlerStart i` needs `¬ started` and sets it: a `task.begin` step of a worker finds the image of its task not
-       started (the task is in phase `held`, never run: `C09_single_holder`, `C09_exec_count_phase`) and leaves it started,
-       without reply; and a task is never begun twice — `execCount ≤ 1` in every reachable state (`C09_at_most_once`);
-    2. `handlerFinish i` needs `started ∧ reply = none` and writes the reply: so does the `task.end` step;
-    3. the `stopPool` step of `server_close()` (the return of `ThreadPool.stop()`) needs every started handler to have replied,
+    `JRV.Model.Pool` (any pool size, any interleaving), through the map `viewOfTask`:
+    (`viewOfTask`: begun = the task body has been entered, ended = the task is finished; the same view of a connection,
+    `viewOfConn`, is all that `handlerStart`, the handler-ending steps and `stopPool` look at — `C12_view_steps`):
+    1. `handlerStart i` needs ⟨not begun⟩ and makes it ⟨begun, not ended⟩: a `task.begin` step of a worker finds the view
+       of its task not begun (the task is in phase `held`, never run: `C09_single_holder`, `C09_exec_count_phase`) and
+       leaves it begun, not ended; and a task is never begun twice — `execCount ≤ 1` in every reachable state
+       (`C09_at_most_once`);
+    2. the steps that end a handler (`handlerFinish` of a one-request connection, `clientClose`) need ⟨begun, not ended⟩
+       and make it ⟨begun, ended⟩: so does the `task.end` step (whatever the task's outcome — a handler that raised ends
+       its task all the same);
+    3. the `stopPool` step of `server_close()` (the return of `ThreadPool.stop()`) needs every begun handler to have ended,
        sets `poolStopped`, which disables `handlerStart`, and the property wants "every worker of the request pool it stops
        terminates": once `stop()` is past its loop joining the worker threads — in particular after it has returned — every
        worker thread is dead and no worker action, `task.begin` included, is enabled (`C09_none_after_stop`; single
        controlling thread, which is how a server uses its pool: only `server_close()` stops it); hence no task is held or
-       running there, i.e. the image of every task satisfies `!started || reply.isSome`.  (What makes `stop()` wait for the
-       handlers in flight is this join of the worker threads, not the `join()` it calls afterwards through `clear()`: the
-       theorem does not depend on the shape of `join()`, `C11_join_true`.)
+       running there, i.e. the view of every task satisfies `!started || done`.  (What makes `stop()` wait for the
+       handlers that hold a worker — with a request in flight OR idle — is this join of the worker threads, not the
+       `join()` it calls afterwards through `clear()`: the theorem does not depend on the shape of `join()`,
+       `C11_join_true`.)
     Not instantiated here (liveness of `stop()`): that `stop()` does get past its join loop once the running handlers finish
     is `C11_stop_no_stuck` + `C11_stop_measure` (and `C11_workers_exit` restates clause 3 with the fresh-pool accounting); they
     are theorems about the same pool model, not imported into this file because C11.lean also carries the companion theorem
@@ -332,29 +1142,26 @@ private theorem pool_end_is_handlerFinish (f : Nat → Nat) (body : Nat → Nat)
     `server_close()` and the termination of the workers on the real code under the deterministic scheduler (`close-hang`,
     `workers-alive`).  That an accepted handler task is eventually begun while the pool runs is `C09_eventually_once` /
     `C09_eventually_begins` (with `C10_no_starvation`, `C10_progress_no_stuck`). -/
-theorem C12_pool_instantiation (f : Nat → Nat) (body : Nat → Nat)
-    (cfg : JRV.Pool.Config) (n : Nat) (ps : JRV.Pool.State) (hr : JRV.Pool.Reach (JRV.Pool.init cfg n) ps) :
+theorem C12_pool_instantiation (cfg : JRV.Pool.Config) (n : Nat) (ps : JRV.Pool.State) (hr : JRV.Pool.Reach (JRV.Pool.init cfg n) ps) :
     (∀ (t : Nat) (tk : JRV.Pool.Task), ps.tasks[t]? = some tk → tk.execCount ≤ 1) ∧
     (∀ j w ps', ps.workers[j]? = some w → w.pc = .begin → JRV.Pool.step? ps ⟨.worker j, .taskBegin, false⟩ = some ps' →
       ∃ t tk tk', w.held = some t ∧ ps.tasks[t]? = some tk ∧ ps'.tasks[t]? = some tk' ∧
-        (connOfTask f (body t) tk).started = false ∧ (connOfTask f (body t) tk).reply = none ∧
-        connOfTask f (body t) tk' = { connOfTask f (body t) tk with started := true }) ∧
+        viewOfTask tk = ⟨false, false⟩ ∧ viewOfTask tk' = ⟨true, false⟩) ∧
     (∀ j w o ps', ps.workers[j]? = some w → w.pc = .body → JRV.Pool.step? ps ⟨.worker j, .taskEnd o, false⟩ = some ps' →
       ∃ t tk tk', w.held = some t ∧ ps.tasks[t]? = some tk ∧ ps'.tasks[t]? = some tk' ∧
-        (connOfTask f (body t) tk).started = true ∧ (connOfTask f (body t) tk).reply = none ∧
-        connOfTask f (body t) tk' = { connOfTask f (body t) tk with reply := some (f (body t)) }) ∧
+        viewOfTask tk = ⟨true, false⟩ ∧ viewOfTask tk' = ⟨true, true⟩) ∧
     (cfg.singleCtl = true → ps.stop = true →
       (∀ c, ps.clients[0]? = some c → (match c.pc with
           | .stopAcq | .stopPut _ | .stopRel _ | .stopAlive _ | .stopJoin _ | .stopAlive2 _ => False | _ => True)) →
       (∀ (j : Nat) (w : JRV.Pool.Worker), ps.workers[j]? = some w → w.pc = .dead) ∧
       (∀ (j : Nat) (op : JRV.Pool.Op) (tmo : Bool), JRV.Pool.step? ps ⟨.worker j, op, tmo⟩ = none) ∧
       (∀ (t : Nat) (tk : JRV.Pool.Task), ps.tasks[t]? = some tk →
-        (!(connOfTask f (body t) tk).started || (connOfTask f (body t) tk).reply.isSome) = true)) := by
+        (!(viewOfTask tk).started || (viewOfTask tk).done) = true)) := by
   refine ⟨fun t tk ht => C09_at_most_once cfg n ps hr t tk ht, ?_, ?_, ?_⟩
   · intro j w ps' hw hpc h
-    exact pool_begin_is_handlerStart f body cfg n ps ps' hr j w hw hpc h
+    exact pool_begin_is_handlerStart cfg n ps ps' hr j w hw hpc h
   · intro j w o ps' hw hpc h
-    exact pool_end_is_handlerFinish f body cfg n ps ps' hr j w hw hpc o h
+    exact pool_end_is_handlerFinish cfg n ps ps' hr j w hw hpc o h
   · intro hctl hstop hpc
     obtain ⟨hdead, hnone⟩ := C09_none_after_stop cfg n ps hctl hr hstop hpc
     refine ⟨hdead, hnone, fun t tk ht => ?_⟩
@@ -367,10 +1174,10 @@ theorem C12_pool_instantiation (f : Nat → Nat) (body : Nat → Nat)
     | running =>
       obtain ⟨j, w, hw, _, hp⟩ := hown (Or.inr hph)
       rw [hdead j w hw] at hp; simp [JRV.Pool.phaseOfPc] at hp
-    | created => simp [connOfTask, hex, hph, JRV.Pool.execOf]
-    | queued => simp [connOfTask, hex, hph, JRV.Pool.execOf]
-    | finished => simp [connOfTask, hex, hph, JRV.Pool.execOf]
-    | dropped => simp [connOfTask, hex, hph, JRV.Pool.execOf]
+    | created => simp [viewOfTask, hex, hph, JRV.Pool.execOf]
+    | queued => simp [viewOfTask, hex, hph, JRV.Pool.execOf]
+    | finished => simp [viewOfTask, hex, hph, JRV.Pool.execOf]
+    | dropped => simp [viewOfTask, hex, hph, JRV.Pool.execOf]
 
 /- Non-vacuity: a started pool, one handler task enqueued (the accept loop is client 0), taken by worker 0 which stands at
    `task.begin` (hypotheses of clause 1); after `task.begin` and `task.end` the image is a connection that has replied. -/
@@ -384,9 +1191,9 @@ example :
            ⟨.worker 0, .lockRelease, false⟩]
         let ps1 ← JRV.Pool.step? ps ⟨.worker 0, .taskBegin, false⟩
         let ps2 ← JRV.Pool.step? ps1 ⟨.worker 0, .taskEnd .ok, false⟩
-        pure (ps.workers.map (·.pc), ps.tasks.map (connOfTask (· + 100) 7), ps1.tasks.map (connOfTask (· + 100) 7),
-              ps2.tasks.map (connOfTask (· + 100) 7)))
-      = some ([.begin], [{ body := 7 }], [{ body := 7, started := true }], [{ body := 7, started := true, reply := some 107 }]) := by
+        pure (ps.workers.map (·.pc), ps.tasks.map (viewOfTask), ps1.tasks.map (viewOfTask),
+              ps2.tasks.map (viewOfTask)))
+      = some ([.begin], [⟨false, false⟩], [⟨true, false⟩], [⟨true, true⟩]) := by
   decide +kernel
 
 /- Non-vacuity of clause 3: the handler task runs to its end, its worker retires (min_threads = 0), `stop()` is called and
@@ -405,19 +1212,17 @@ example :
            ⟨.client 0, .callStop, false⟩, ⟨.client 0, .eventIsSet, false⟩, ⟨.client 0, .eventSet, false⟩,
            ⟨.client 0, .lockAcquire, false⟩, ⟨.client 0, .lockRelease, false⟩, ⟨.client 0, .lockAcquire, false⟩,
            ⟨.client 0, .queueGetNowait, false⟩, ⟨.client 0, .queueJoin, false⟩, ⟨.client 0, .lockRelease, false⟩]).map
-        (fun s => (s.cfg.singleCtl, s.stop, s.clients.map (·.pc), s.workers.map (·.pc), s.tasks.map (connOfTask (· + 100) 7)))
-      = some (true, true, [.idle], [.dead], [{ body := 7, started := true, reply := some 107 }]) := by
+        (fun s => (s.cfg.singleCtl, s.stop, s.clients.map (·.pc), s.workers.map (·.pc), s.tasks.map (viewOfTask)))
+      = some (true, true, [.idle], [.dead], [⟨true, true⟩]) := by
   rfl
 
-/-- Tie to the source: the body of PooledJSONRPCServer.server_close / serve_forever / process_request. -/
-theorem C12_gen_serverClose : Generated.pooledServerClose = some ["if-serving:shutdown", "server_close", "pool.stop"] := by decide
-theorem C12_gen_serveFlag : Generated.pooledServeForeverSetsFlag = some (true, true) := by decide
-theorem C12_gen_processRequest : Generated.pooledProcessRequestEnqueues = some true := by decide
 
-/- Non-vacuity: serve, accept two connections, close while one request is in flight. -/
-example : ((run (fun b => b + 100) init
-    [.startServe, .serveStep, .serveStep, .accept 1, .accept 2, .handlerStart 0, .beginClose, .closeStep, .closeStep,
-     .serveStep, .serveStep, .serveStep, .closeStep, .closeStep, .handlerFinish 0, .closeStep]).map
-      (fun s => (s.cpc, s.conns.map (·.reply)))) = some (.returned, [some 101, none]) := by decide
+/- Non-vacuity: serve, accept two connections, close while one request is in flight (the other one still queued is
+   dropped by `pool.stop()`). -/
+example : ((run {} (fun _ b => b + 100) init
+    [.startServe, .serveStep, .serveStep, .accept 1 .good false, .accept 2 .good false, .handlerStart 0, .request 0,
+     .beginClose, .closeStep, .closeStep, .serveStep, .serveStep, .serveStep, .closeStep, .closeStep, .handlerFinish 0,
+     .closeStep]).map
+      (fun s => (s.cpc, s.conns.map (·.reply)))) = some (.returned, [some (.result 101), none]) := by decide
 
 end JRV.Props
